@@ -1,33 +1,27 @@
 import Inkayaku.Proofs.SearchShape
 import Inkayaku.Proofs.BoardCongr
+import Inkayaku.Proofs.WfStep
 import Inkayaku.Model.WF
 /-!
 # The search brackets every `make` with its `unmake` on every exit path (C09)
 
-`BoardLaws` collects what the board layer has to provide (H1: `unmake ∘ make` restores the visible position of a
-well-formed board for every generated move; H2: a generated move that passes `isValid` leads to a well-formed board).
-They are the conclusions of other properties' theorems and are hypotheses here.  H3 (everything the search calls
-depends on the visible position only) is proved in `Proofs/BoardCongr.lean`.
+What the board layer has to provide (see `Proofs/WfStep.lean`):
+H1 (`unmake ∘ make` restores the visible position of a well-formed board for every generated move) is PROVED from C03;
+H2' (`BoardLaws.make_inv`: a generated move that passes `isValid` takes a board that is well-formed with clock budget
+`k+1` to one with budget `k`) is the only hypothesis.  H3 (everything the search calls depends on the visible position
+only) is proved in `Proofs/BoardCongr.lean`.
 
-Under `BoardLaws`, for every fuel, every state with a well-formed board, every window, every poll period, every list of
-pending messages, every clock and every go parameters, `quiescence`, `quiescenceLoop`, `negamax`, `negamaxLoop`,
-`deepen`, `goCmd` and any sequence of `goCmd`s return a state whose board has the visible position of the board they
-were given.  No case distinction on *why* a node returned is needed: the statement is about the function value for
-arbitrary arguments, so the illegal-move path, cut-offs, the abort by flag at any node, the time-out return, the
-transposition-table return, the repetition return and running out of fuel are all covered.
+The clock budget is consumed with the recursion fuel: a node searched with `fuel` needs `Inv fuel s.board`, every
+recursive call one ply deeper has one unit of fuel less.  Under `BoardLaws`, for every fuel, every state whose board
+satisfies `Inv fuel`, every window, every poll period, every list of pending messages, every clock and every go
+parameters, `quiescence`, `quiescenceLoop`, `negamax`, `negamaxLoop`, `deepen`, `goCmd` and any sequence of `goCmd`s
+return a state whose board has the visible position of the board they were given.  No case distinction on *why* a node
+returned is needed: the statement is about the function value for arbitrary arguments, so the illegal-move path,
+cut-offs, the abort by flag at any node, the time-out return, the transposition-table return, the repetition return
+and running out of fuel are all covered.
 -/
 namespace Inkayaku.Search
 open Inkayaku.Board Inkayaku.Eval Inkayaku.WF Inkayaku.BoardCongr
-
-/-- a move produced by one of the two generators the search uses -/
-def Generated (b : Board) (m : Move) : Prop := m ∈ genPseudo b ∨ m ∈ genNonQuiescent b
-
-/-- what the board layer owes the search (H1, H2) -/
-structure BoardLaws : Prop where
-  /-- H1 -/
-  unmake_make : ∀ b, wf b = true → ∀ m, Generated b m → vis (unmake (make b m) m) = vis b
-  /-- H2 -/
-  make_wf : ∀ b, wf b = true → ∀ m, Generated b m → isValid (make b m) = true → wf (make b m) = true
 
 /-! ## fields untouched by the non-recursive phases -/
 
@@ -100,28 +94,48 @@ def runGo (s : St) (x : GoStep) : St := goCmd (x.env s) x.go x.maxIter
 
 def runGos (s : St) (xs : List GoStep) : St := xs.foldl runGo s
 
+theorem goIters_le (g : GoParams) (maxIter : Nat) : goIters g maxIter ≤ maxIter := Nat.min_le_right _ _
+
 /-! ## quiescence -/
+
+/-- after searching below a generated move and unmaking it, the visible position is back -/
+theorem back {b0 b2 : Board} (hwf : wf b0 = true) {m : Move} (hm : Generated b0 m)
+    (h2 : vis b2 = vis (make b0 m)) : vis (unmake b2 m) = vis b0 := by
+  rw [unmake_congr h2 m]
+  exact unmake_make_of_generated b0 hwf m hm
+
+def QOk (fuel : Nat) : Prop :=
+  ∀ (s : St) (a b : Int), Inv fuel s.board → vis (quiescence fuel s a b).2.board = vis s.board
+
+def QLoopOk (fuel : Nat) : Prop :=
+  ∀ (b0 : Board), Inv (fuel + 1) b0 → ∀ (moves : List Move), (∀ m ∈ moves, Generated b0 m) →
+    ∀ (s : St) (a b : Int) (bm : Option Move) (bc : Option VM), vis s.board = vis b0 →
+      vis (quiescenceLoop fuel s moves a b bm bc).2.board = vis b0
+
+def NOk (fuel : Nat) : Prop :=
+  ∀ (s : St) (ply maxPly : Nat) (a b : Int) (isPv : Bool) (h ph : UInt64), Inv fuel s.board →
+    vis (negamax fuel s ply maxPly a b isPv h ph).2.board = vis s.board
+
+def NLoopOk (fuel : Nat) : Prop :=
+  ∀ (b0 : Board), Inv (fuel + 1) b0 → ∀ (moves : List Move), (∀ m ∈ moves, Generated b0 m) →
+    ∀ (s : St) (ply maxPly : Nat) (beta : Int) (isPv : Bool) (pvMove : Option Move) (h ph : UInt64) (rem : Nat)
+      (acc : LoopAcc), vis s.board = vis b0 →
+      vis (negamaxLoop fuel s moves ply maxPly beta isPv pvMove h ph rem acc).2.2.board = vis b0
 
 section
 variable (L : BoardLaws)
 include L
 
-/-- after searching below a legal generated move and unmaking it, the visible position is back -/
-theorem back {b0 b2 : Board} (hwf : wf b0 = true) {m : Move} (hm : Generated b0 m)
-    (h2 : vis b2 = vis (make b0 m)) : vis (unmake b2 m) = vis b0 := by
-  rw [unmake_congr h2 m]
-  exact L.unmake_make b0 hwf m hm
-
-def QOk (fuel : Nat) : Prop :=
-  ∀ (s : St) (a b : Int), wf s.board = true → vis (quiescence fuel s a b).2.board = vis s.board
-
-def QLoopOk (fuel : Nat) : Prop :=
-  ∀ (b0 : Board), wf b0 = true → ∀ (moves : List Move), (∀ m ∈ moves, Generated b0 m) →
-    ∀ (s : St) (a b : Int) (bm : Option Move) (bc : Option VM), vis s.board = vis b0 →
-      vis (quiescenceLoop fuel s moves a b bm bc).2.board = vis b0
+/-- the board after a legal generated move, seen from a state whose board is vis-equal to `b0` -/
+theorem child_inv {k : Nat} {b0 b : Board} (hinv : Inv (k + 1) b0) (hb : vis b = vis b0) {m : Move} (hm : Generated b0 m)
+    (hv : isValid (make b m) = true) : Inv k (make b m) ∧ isValid (make b0 m) = true := by
+  have hmk : vis (make b m) = vis (make b0 m) := make_congr hb m
+  have hv' : isValid (make b0 m) = true := by rw [← isValid_congr hmk]; exact hv
+  exact ⟨Inv_congr hmk.symm (L.make_inv k b0 m hinv hm hv'), hv'⟩
 
 theorem qLoop_of_q {fuel : Nat} (hq : QOk fuel) : QLoopOk fuel := by
-  intro b0 hwf moves
+  intro b0 hinv moves
+  have hwf := hinv.wf
   induction moves with
   | nil => intro _ s a b bm bc hs; rw [quiescenceLoop_nil]; exact hs
   | cons m rest ih =>
@@ -131,14 +145,11 @@ theorem qLoop_of_q {fuel : Nat} (hq : QOk fuel) : QLoopOk fuel := by
     have hmk : vis (make s.board m) = vis (make b0 m) := make_congr hs m
     rw [quiescenceLoop_cons]
     split
-    · exact ih hrest _ a b bm bc (back L hwf hm hmk)
+    · exact ih hrest _ a b bm bc (back hwf hm hmk)
     · rename_i hv
-      have hv' : isValid (make b0 m) = true := by
-        rw [← isValid_congr hmk]; simpa using hv
-      have hwf1 : wf (make s.board m) = true := by
-        rw [wf_congr hmk]; exact L.make_wf b0 hwf m hm hv'
-      have hr := hq { s with board := make s.board m, quiescenceNodes := s.quiescenceNodes + 1 } (-b) (-a) hwf1
-      have hb := back L hwf hm (hr.trans hmk)
+      have hi1 := (child_inv L hinv hs hm (by simpa using hv)).1
+      have hr := hq { s with board := make s.board m, quiescenceNodes := s.quiescenceNodes + 1 } (-b) (-a) hi1
+      have hb := back hwf hm (hr.trans hmk)
       simp only
       split
       · exact hb
@@ -151,28 +162,19 @@ theorem quiescence_ok : ∀ fuel, QOk fuel := by
   induction fuel with
   | zero => intro s a b _; rw [quiescence_zero]
   | succ fuel ih =>
-    intro s a b hwf
+    intro s a b hinv
     rw [quiescence_succ]
     split
     · rfl
-    · refine qLoop_of_q L ih s.board hwf _ ?_ s _ b none none rfl
+    · refine qLoop_of_q L ih s.board hinv _ ?_ s _ b none none rfl
       intro m hm
       exact Or.inr (mem_sortMoves.mp hm)
 
 /-! ## negamax -/
 
-def NOk (fuel : Nat) : Prop :=
-  ∀ (s : St) (ply maxPly : Nat) (a b : Int) (isPv : Bool) (h ph : UInt64), wf s.board = true →
-    vis (negamax fuel s ply maxPly a b isPv h ph).2.board = vis s.board
-
-def NLoopOk (fuel : Nat) : Prop :=
-  ∀ (b0 : Board), wf b0 = true → ∀ (moves : List Move), (∀ m ∈ moves, Generated b0 m) →
-    ∀ (s : St) (ply maxPly : Nat) (beta : Int) (isPv : Bool) (pvMove : Option Move) (h ph : UInt64) (rem : Nat)
-      (acc : LoopAcc), vis s.board = vis b0 →
-      vis (negamaxLoop fuel s moves ply maxPly beta isPv pvMove h ph rem acc).2.2.board = vis b0
-
 theorem nLoop_of_n {fuel : Nat} (hn : NOk fuel) : NLoopOk fuel := by
-  intro b0 hwf moves
+  intro b0 hinv moves
+  have hwf := hinv.wf
   induction moves with
   | nil => intro _ s ply maxPly beta isPv pvMove h ph rem acc hs; rw [negamaxLoop_nil]; exact hs
   | cons m rest ih =>
@@ -182,15 +184,12 @@ theorem nLoop_of_n {fuel : Nat} (hn : NOk fuel) : NLoopOk fuel := by
     have hmk : vis (make s.board m) = vis (make b0 m) := make_congr hs m
     rw [negamaxLoop_cons]
     split
-    · exact ih hrest _ ply maxPly beta isPv pvMove h ph rem acc (back L hwf hm hmk)
+    · exact ih hrest _ ply maxPly beta isPv pvMove h ph rem acc (back hwf hm hmk)
     · rename_i hv
-      have hv' : isValid (make b0 m) = true := by
-        rw [← isValid_congr hmk]; simpa using hv
-      have hwf1 : wf (make s.board m) = true := by
-        rw [wf_congr hmk]; exact L.make_wf b0 hwf m hm hv'
+      have hi1 := (child_inv L hinv hs hm (by simpa using hv)).1
       have hr := hn { s with board := make s.board m } (ply + 1) maxPly (-beta) (-acc.alpha)
-        (childPvOf isPv pvMove m) (h ^^^ (Zobrist.xorOf m.f).1) (ph ^^^ (Zobrist.xorOf m.f).2) hwf1
-      have hb := back L hwf hm (hr.trans hmk)
+        (childPvOf isPv pvMove m) (h ^^^ (Zobrist.xorOf m.f).1) (ph ^^^ (Zobrist.xorOf m.f).2) hi1
+      have hb := back hwf hm (hr.trans hmk)
       simp only
       split
       · exact hb
@@ -203,9 +202,9 @@ theorem negamax_ok : ∀ fuel, NOk fuel := by
   induction fuel with
   | zero => intro s ply maxPly a b isPv h ph _; rw [negamax_zero]
   | succ fuel ih =>
-    intro s ply maxPly a b isPv h ph hwf
+    intro s ply maxPly a b isPv h ph hinv
     have he : (enter s h).board = s.board := enter_board s h
-    have hwf3 : wf (enter s h).board = true := by rw [he]; exact hwf
+    have hinv3 : Inv (fuel + 1) (enter s h).board := by rw [he]; exact hinv
     rw [negamax_succ]
     split
     · show vis (pollStep s).board = _; rw [pollStep_board]
@@ -220,25 +219,26 @@ theorem negamax_ok : ∀ fuel, NOk fuel := by
             · unfold horizon
               simp only
               split
-              · rw [quiescence_ok L fuel _ _ _ hwf3, he]
+              · rw [quiescence_ok L fuel _ _ _ (Inv_mono (Nat.le_succ fuel) hinv3), he]
               · rw [he]
             · rw [finish_board]
-              rw [nLoop_of_n L ih (enter s h).board hwf3 _ ?_ (enter s h) _ _ _ _ _ _ _ _ _ rfl, he]
+              rw [nLoop_of_n L ih (enter s h).board hinv3 _ ?_ (enter s h) _ _ _ _ _ _ _ _ _ rfl, he]
               intro m hm
               exact Or.inl (mem_rootBuffer_genPseudo (mem_sortMoves.mp hm))
 
 /-! ## iterative deepening, `go`, sessions -/
 
-theorem rootSearch_board (s : St) (d : Nat) (hwf : wf s.board = true) :
+theorem rootSearch_board (s : St) (d : Nat) (hinv : Inv (fuelFor d) s.board) :
     vis (rootSearch s d).2.board = vis s.board :=
-  negamax_ok L _ s 0 d _ _ _ _ _ hwf
+  negamax_ok L _ s 0 d _ _ _ _ _ hinv
 
+/-- `n` iterations starting at depth `d` search with fuel `fuelFor d`, …, `fuelFor (d + n - 1)` -/
 theorem deepen_board (n : Nat) (s : St) (d mt : Nat) (best : Option VM) (u : Option (List Move)) (sc : Option Score)
-    (hwf : wf s.board = true) : vis (deepen n s d mt best u sc).2.board = vis s.board := by
+    (hinv : Inv (fuelFor d + n) s.board) : vis (deepen n s d mt best u sc).2.board = vis s.board := by
   induction n generalizing s d best u sc with
   | zero => rw [deepen_zero]
   | succ n ih =>
-    have hr := rootSearch_board L s d hwf
+    have hr := rootSearch_board L s d (Inv_mono (Nat.le_add_right _ _) hinv)
     rw [deepen_succ]
     simp only
     split
@@ -247,28 +247,37 @@ theorem deepen_board (n : Nat) (s : St) (d mt : Nat) (best : Option VM) (u : Opt
       · rw [iterState_board]; exact hr
       · rw [ih]
         · rw [iterState_board]; exact hr
-        · rw [iterState_board, wf_congr hr]; exact hwf
+        · rw [iterState_board]
+          refine Inv_congr hr.symm (Inv_mono ?_ hinv)
+          unfold fuelFor; omega
 
-theorem go_preserves_board (s : St) (g : GoParams) (maxIter : Nat) (hwf : wf s.board = true) :
+/-- the clock budget of one `go`: the deepest iteration has depth ≤ `maxIter` and searches with fuel ≤ `maxIter + 200` -/
+def goBudget (maxIter : Nat) : Nat := maxIter + 201
+
+theorem go_preserves_board (s : St) (g : GoParams) (maxIter : Nat) (hinv : Inv (goBudget maxIter) s.board) :
     vis (goCmd s g maxIter).board = vis s.board := by
   rw [goCmd_eq]
   show vis (goDeepen s g maxIter).2.board = _
   unfold goDeepen
-  rw [deepen_board L _ _ _ _ _ _ _ (by rw [goPrep_board]; exact hwf), goPrep_board]
+  rw [deepen_board L _ _ _ _ _ _ _ ?_, goPrep_board]
+  rw [goPrep_board]
+  refine Inv_mono ?_ hinv
+  have := goIters_le g maxIter
+  unfold fuelFor goBudget; omega
 
-theorem runGo_board (s : St) (x : GoStep) (hwf : wf s.board = true) : vis (runGo s x).board = vis s.board := by
+theorem runGo_board (s : St) (x : GoStep) (hinv : Inv (goBudget x.maxIter) s.board) : vis (runGo s x).board = vis s.board := by
   unfold runGo
-  rw [go_preserves_board L _ _ _ (by rw [x.env_board]; exact hwf), x.env_board]
+  rw [go_preserves_board L _ _ _ (by rw [x.env_board]; exact hinv), x.env_board]
 
 /-- any number of consecutive (possibly interrupted) searches leaves the position alone -/
-theorem session_preserves_board (xs : List GoStep) (s : St) (hwf : wf s.board = true) :
+theorem session_preserves_board (xs : List GoStep) (s : St) (hinv : ∀ x ∈ xs, Inv (goBudget x.maxIter) s.board) :
     vis (runGos s xs).board = vis s.board := by
   induction xs generalizing s with
   | nil => rfl
   | cons x xs ih =>
-    have h1 := runGo_board L s x hwf
+    have h1 := runGo_board L s x (hinv x (List.mem_cons_self ..))
     show vis (runGos (runGo s x) xs).board = _
-    rw [ih _ (by rw [wf_congr h1]; exact hwf), h1]
+    rw [ih _ (fun y hy => Inv_congr h1.symm (hinv y (List.mem_cons_of_mem _ hy))), h1]
 
 end
 
